@@ -97,7 +97,7 @@ class Harness(cm.BaseB):
             for ws in chunk["wells"]:
                 n = len(ws)
                 for tips in itertools.product(range(len(TIPSYMS)), repeat=n):
-                    for vk in ("scalar", "list", "tuple") if n == 2 else ("scalar", "list"):
+                    for vk in ("scalar", "list", "tuple", "zero") if n == 2 else ("scalar", "list", "zero") if n == 3 else ("scalar", "list"):
                         for op in ("evo_aspirate", "evo_dispense"):
                             yield {"k": "cmd", "lw": chunk["lw"], "wells": list(ws), "tips": list(tips), "vk": vk, "op": op, "via": "wl" if (n + tips[0]) % 2 == 0 or n == 3 else "fn"}
         elif chunk["k"] == "alt":
@@ -120,6 +120,11 @@ class Harness(cm.BaseB):
                                 yield {"k": "arg", "op": op, "via": via, "what": "pos", "grid": grid, "site": site, "arm": arm}
                     for lc in ("", "Water free dispense", "a;b", "x" * 40):
                         yield {"k": "arg", "op": op, "via": via, "what": "lc", "lc": lc}
+                    # a worklist with a large max_volume: per-tip volumes that differ only in the last emitted digit
+                    for wells in (["A01", "B01"], ["B01", "A01"]):
+                        for tips in ([1, 2], [2, 1]):
+                            for vols in ([1500.01, 1500.0], [1500.0, 1500.01], [4999.99, 5000.0]):
+                                yield {"k": "big", "op": op, "via": via, "wells": wells, "tips": tips, "vols": vols}
         else:
             names = list(WASH_CLASSES)
             a = names[chunk["a"]]
@@ -137,6 +142,32 @@ class Harness(cm.BaseB):
 
     def one(self, case):
         return getattr(self, "one_" + case["k"])(case)
+
+    def one_big(self, case):
+        op, wells, tips, vols = case["op"], case["wells"], case["tips"], case["vols"]
+        lw = rt.Labware("L", 8, 3, min_volume=0, max_volume=1e6, initial_volumes=10000.0)
+        before = lw.volumes
+        wl = rt.EvoWorklist(max_volume=5000)
+        try:
+            if case["via"] == "wl":
+                getattr(wl, op)(lw, wells, (30, 2), tips, vols, "LC")
+                rec = wl[-1]
+            else:
+                rec = getattr(commands, op)(n_rows=8, n_columns=3, wells=wells, labware_position=(30, 2), volume=vols, liquid_class="LC", tips=tips, max_volume=5000)
+        except Exception as e:
+            ok = wells == sorted(wells) and tips == sorted(tips)
+            return "big:refused", repr(case), ([("C13/expressible-call-rejected", f"{case}: {type(e).__name__}: {e}")] if ok else [])
+        geo2 = Geo("L", "plate", 8, 3, 0, 1e6)
+        init = {c: (Fraction(float(before[c])), {}) for c in geo2.real_wells()}
+        robot = Robot("evo", {"L": geo2}, {"L": init}, wl_max=5000, site_map={(30, 1): "L"})
+        p, issues = robot.feed(rec)
+        V = [("C13/command-not-executable", f"{case} -> {rec!r}: {t} {d}") for t, d in issues if t not in ("negative", "below_min", "above_max")]
+        sign = -1 if op == "evo_aspirate" else 1
+        want = {geo2.real(w): sign * Fraction(v) for w, v in zip(wells, vols)}
+        for c, w_ in want.items():
+            if abs((robot.vol["L"][c] - init[c][0]) - w_) > Fraction(1, 1000):
+                V.append(("C13/command-disagrees-with-tracking", f"{case}: command changes {well_id(*c)} by {float(robot.vol['L'][c] - init[c][0])}, the call asked for {float(w_)}: {rec!r}"))
+        return "big:ok", repr(case), V
 
     def one_alt(self, case):
         cm.clear_caches()
@@ -171,6 +202,9 @@ class Harness(cm.BaseB):
         vols = 10.0 if case["vk"] == "scalar" else vlist if case["vk"] == "list" else tuple(vlist)
         if case["vk"] == "scalar":
             vlist = [10.0] * n
+        if case["vk"] == "zero":
+            vlist[(n - 1) // 2 if n == 3 else 0] = 0.0  # one tip is selected but moves nothing
+            vols = list(vlist)
         lw, geo = build(lwn)
         exc, recs, before, after = self.execute(op, via, lw, geo, wells, tips, vols)
         tnums = [tipnum(t) for t in tips_raw]
@@ -184,7 +218,7 @@ class Harness(cm.BaseB):
             and len(set(wells)) == n
             and case["vk"] != "tuple"
         )
-        if expressible and case["vk"] == "list" and n > 1:
+        if expressible and case["vk"] in ("list", "zero") and n > 1:
             order_w = sorted(range(n), key=lambda i: wells[i])
             order_t = sorted(range(n), key=lambda i: tnums[i])
             expressible = order_w == order_t == list(range(n)) or (order_w == order_t)
